@@ -2,8 +2,9 @@
 (perm_sets/basis.py, perm_sets/permset.py Av.__new__/from_iterable/from_string/clear_cache)."""
 import itertools
 
-from core import fseq, fseqs, fcells, fbool, pseq, guarded
+from core import fseq, fseqs, fcells, fbool, pseq, pcells, guarded
 import c08
+import past
 import used
 
 PROP = "C05"
@@ -12,7 +13,8 @@ RULE = ("a pattern list is one token (C08 pattern tokens joined by '+'); exhaust
         "of length <=1, every sequence of <=2 over meshes + bivincular/vincular/covincular objects of length <=1 + short perms; "
         "strings 0-/1-based; construction histories of Av; random: bases with planted containments up to length 6, meshes "
         "of length <=3 with planted sub-/super-shadings; non-trivial = at least two distinct patterns (lists), a non-empty "
-        "digit string, or a history with >=2 constructions; distinct = distinct op lines")
+        "digit string, or a history with >=2 constructions; distinct = distinct op lines"
+        ' Hardening pass 2: stream `large` (bases around long permutations of length 9-12, 21-40, 64-70, ~200, ~401: near copies, copies with coinciding decimal rendering, planted sub-patterns near the ends, several long elements; mesh patterns of length 6-12 and 21-24 with their smallest containing patterns), `mesh-chains` / `exhaustive-mesh-short-long` (smallest containing mesh patterns, equal numbers of shaded boxes); input patterns are objects with a past (past.mkperm_u/mkmesh_u); the list handed to Av is changed afterwards; short-lived sibling objects are created and dropped between the two evaluations.')
 ASSUMPTIONS = [
     "model/implementation agreement outside the enumerated and sampled inputs is assumed",
     "sorted() on the total order of permutations is modelled by List.mergeSort (any correct sort gives the same list); "
@@ -103,7 +105,53 @@ def occs(p, s):
             yield c
 
 
+def _std(vals):
+    srt = sorted(vals)
+    rk = {v: i for i, v in enumerate(srt)}
+    return tuple(rk[v] for v in vals)
+
+
+def _ncomb(n, k):
+    c = 1
+    for i in range(k):
+        c = c * (n - i) // (i + 1)
+    return c
+
+
+def contains_big(s, p):
+    """containment for LONG inputs (the `large` stream): the definition is unchanged (some subsequence of s is
+    order-isomorphic to p) but all-subsets-times-all-pairs is out of reach there, so: when there are few
+    subsequences of the right length each one is standardised and compared; otherwise a depth-first search places
+    the pattern's entries left to right, each new entry strictly between the values already chosen for the pattern
+    entries just below and just above it.  Written for this oracle, shares nothing with the library's search."""
+    k, n = len(p), len(s)
+    if k > n:
+        return False
+    p = tuple(p)
+    if _ncomb(n, k) <= 3000:
+        return any(_std([s[i] for i in c]) == p for c in itertools.combinations(range(n), k))
+    below = [max((i for i in range(j) if p[i] < p[j]), key=lambda i: p[i], default=None) for j in range(k)]
+    above = [min((i for i in range(j) if p[i] > p[j]), key=lambda i: p[i], default=None) for j in range(k)]
+    chosen = []
+
+    def place(j, start):
+        if j == k:
+            return True
+        a = s[chosen[below[j]]] if below[j] is not None else -1
+        b = s[chosen[above[j]]] if above[j] is not None else n
+        for i in range(start, n - (k - j) + 1):
+            if a < s[i] < b:
+                chosen.append(i)
+                if place(j + 1, i + 1):
+                    return True
+                chosen.pop()
+        return False
+    return place(0, 0)
+
+
 def contains(s, p):
+    if len(s) > 9:
+        return contains_big(s, p)
     return any(True for _ in occs(p, s))
 
 
@@ -184,8 +232,24 @@ def class_meshes(ms, n):
 def _objs(l):
     """the input patterns of a line, as *used* objects (every second one is warmed up: hashed, compared,
     searched with - this fills whatever a pattern object memoises), built once per line (used.obj)"""
-    return [used.obj((i, t), lambda t=t: c08.build(t), c08.warm_value if i % 2 == 0 else None)
+    return [used.obj((i, t), lambda t=t, i=i: _mk(t, i), c08.warm_value if i % 2 == 0 else None)
             for i, t in enumerate(toks(l))]
+
+
+def _mk(t, salt):
+    """the object a token denotes, as an object with a past (past.mkperm_u / mkmesh_u: fresh, used, or derived from
+    a used object through another API route); other kinds and malformed tokens: the plain constructor"""
+    if not _PAST[0]:
+        return c08.build(t)
+    if t[0] == "P":
+        v = pseq(t[1:])
+        if used.is_perm(v):
+            return past.mkperm_u(v, salt)
+    elif t[0] == "M":
+        p, c = t[1:].split("/")
+        if used.is_perm(pseq(p)):
+            return past.mkmesh_u(pseq(p), pcells(c), salt)
+    return c08.build(t)
 
 
 def _mv(o):
@@ -291,14 +355,22 @@ def _neighbours(op, a):
             pass
 
 
+_PAST = [True]
+
+
 def impl(op, a):
     a = strip_tag(a)
     used.begin()
+    # objects with a past on every line of the small streams' long lists and a deterministic third of the others
+    _PAST[0] = used.sel(op, a, 3) or (bool(a) and len(a[0]) > 60)
     if op not in _TWICE:
         return _impl(op, a)
     try:
         _neighbours(op, a)
         r1 = _impl(op, a)
+        if used.sel(op, a, 12):
+            # many short-lived patterns of the same kinds and sizes are created, used and collected in between
+            used.ghosts([o for _, o in used.T.objs][:4], 8)
         used.T.rewind()
         r2 = _impl(op, a)           # the same constructor call on the same, now used, pattern objects
     finally:
@@ -329,11 +401,16 @@ def _impl(op, a):
     if op == "mprops":
         return guarded(lambda: impl_mprops(a[0]))
     if op == "meshin":
-        return guarded(lambda: fbool(used.obj((1, a[1]), lambda: c08.build(a[1]), c08.warm_value).contains(
-            used.obj((0, a[0]), lambda: c08.build(a[0]), c08.warm_value))))
+        return guarded(lambda: fbool(used.obj((1, a[1]), lambda: _mk(a[1], 1), c08.warm_value).contains(
+            used.obj((0, a[0]), lambda: _mk(a[0], 0), c08.warm_value))))
     if op == "avbasis":
         def f():
-            b = Av(_objs(a[0])).basis      # impl() clears the class table after the second evaluation
+            lst = _objs(a[0])
+            av = Av(lst)                   # impl() clears the class table after the second evaluation
+            lst.reverse()                  # the list that was passed in is changed afterwards: the class is not
+            lst.extend(lst[:1])
+            del lst[:2]
+            b = av.basis
             if isinstance(b, Basis):
                 return "S" + fseqs(b)
             return "T" + ("+".join("M" + fmesh(*m) for m in sorted((_mv(m) for m in b), key=meshkey)) if len(b) else "-")
@@ -531,6 +608,13 @@ def rand_mesh_tokens(rng, one_class):
                 cells ^= {c}
             out.append(c08.mtok(q, cells))
             continue
+        if out and rng.random() < 0.2:
+            # planted redundant longer pattern with the smallest possible shading (super_mesh)
+            q, cells = mval(rng.choice(out))
+            sm = super_mesh(rng, q, cells, rng.choice((0.0, 0.0, 0.1))) if len(q) <= 3 else None
+            if sm is not None:
+                out.append(c08.mtok(*sm))
+                continue
         if out and rng.random() < 0.25:
             # planted redundant longer pattern: a (possibly lexicographically smaller) container of an
             # earlier pattern's permutation, together with the unshaded/classical form of the latter
@@ -553,6 +637,87 @@ def rand_mesh_tokens(rng, one_class):
         else:
             out.append(c08.rand_mesh_tok(rng, p))
     return out
+
+
+def super_mesh(rng, p, cells, extra=0.0):
+    """a mesh pattern one point longer that contains (p, cells): a new point is put into an unshaded box (x, y) and
+    every shaded box of the short pattern becomes the block of boxes it is cut into (boxes in column x / row y are
+    cut in two) - the SMALLEST shading with which the long pattern still contains the short one; `extra` adds
+    further boxes.  When the shaded boxes avoid column x and row y the two patterns have equally many of them."""
+    n = len(p)
+    free = [(x, y) for x in range(n + 1) for y in range(n + 1) if (x, y) not in cells]
+    if not free:
+        return None
+    # prefer a box whose row and column carry no shading (equal numbers of shaded boxes), when there is one
+    clean = [(x, y) for x, y in free if not any(cx == x or cy == y for cx, cy in cells)]
+    x, y = rng.choice(clean) if clean and rng.random() < 0.6 else rng.choice(free)
+    q = [v + 1 if v >= y else v for v in p]
+    q.insert(x, y)
+    xs = lambda c: [c] if c < x else [c + 1] if c > x else [c, c + 1]  # noqa: E731
+    ys = lambda r: [r] if r < y else [r + 1] if r > y else [r, r + 1]  # noqa: E731
+    big = {(c2, r2) for c, r in cells for c2 in xs(c) for r2 in ys(r)}
+    if extra:
+        big |= {(c, r) for c in range(n + 2) for r in range(n + 2) if rng.random() < extra}
+    return tuple(q), big
+
+
+def std_sub(p, idx):
+    sub = [p[i] for i in idx]
+    srt = sorted(sub)
+    return tuple(srt.index(v) for v in sub)
+
+
+def long_family(rng, n, short_ok):
+    """a pattern list around one long permutation of length n: the permutation, near copies that differ from it by
+    one adjacent transposition / one entry moved by a few positions (at either end and in the middle), copies whose
+    decimal rendering coincides (a value >= 10 next to its own digits, before or after them), sub-patterns with one
+    or two points deleted near the ends (the long one is then redundant), other long permutations of the same and of
+    neighbouring lengths, repetitions; `short_ok`: also short patterns (planted occurrences using the first / last
+    entries, and random ones)"""
+    a = list(rand_perm(rng, n))
+    if n >= 11 and rng.random() < 0.5:
+        # value v >= 10 placed next to its own decimal digits d1 d2
+        v = rng.choice([w for w in range(10, min(n, 99)) if w // 10 != w % 10 and w % 10 < n])
+        d1, d2 = v // 10, v % 10
+        rest = [w for w in a if w not in (v, d1, d2)]
+        i = rng.choice([0, len(rest), rng.randrange(len(rest) + 1)])
+        a = rest[:i] + [v, d1, d2] + rest[i:]
+        sib = rest[:i] + [d1, d2, v] + rest[i:]
+        fam = [tuple(a), tuple(sib)]
+        if rng.random() < 0.5:
+            fam.append(tuple(rest[:i] + [d1, v, d2] + rest[i:]))
+    else:
+        fam = [tuple(a)]
+    for _ in range(rng.randrange(0, 3)):
+        b = list(a)
+        i = rng.choice([0, n - 2, rng.randrange(n - 1)])
+        if rng.random() < 0.5:
+            b[i], b[i + 1] = b[i + 1], b[i]
+        else:
+            w = b.pop(i)
+            b.insert(min(n - 1, i + rng.randrange(1, 4)), w)
+        fam.append(tuple(b))
+    r = rng.random()
+    if r < 0.45:
+        drop = set(rng.sample([0, 1, n - 2, n - 1, rng.randrange(n)], rng.randrange(1, 3)))
+        fam.append(std_sub(a, [i for i in range(n) if i not in drop]))
+    elif r < 0.6:
+        fam.append(rand_perm(rng, rng.choice([n, n, n - 1, n + 1])))
+    if short_ok:
+        r = rng.random()
+        if r < 0.35:
+            k = rng.randrange(2, 6)
+            ends = [0, 1, n - 2, n - 1]
+            idx = sorted(set(rng.sample(ends, 2) + rng.sample(range(n), k - 2)))
+            fam.append(std_sub(a, idx))
+        elif r < 0.6:
+            fam.append(rand_perm(rng, rng.randrange(3, 7)))
+        elif r < 0.7:
+            fam.append(rand_perm(rng, rng.randrange(9, 13)))
+    if rng.random() < 0.3:
+        fam.append(rng.choice(fam))
+    rng.shuffle(fam)
+    return fam
 
 
 def run(ctx):
@@ -612,6 +777,17 @@ def run(ctx):
         lines.append(tagged("mbasis", t))
         lines.append(tagged("mprops", t))
     ctx.compare("exhaustive-meshbasis", lines)
+    # every mesh of length <= 1 together with every mesh of length 2 that has at most two shaded boxes, both orders
+    # (one shaded box: all of them; two: a sample)
+    M2 = [c08.mtok(p, c) for p in perms(2) for k in range(3)
+          for c in itertools.combinations([(x, y) for x in range(3) for y in range(3)], k)]
+    lines = []
+    for x in M1:
+        for y in M2:
+            if y.count(".") <= 1 or rng.random() < (0.12 if quick else 1.0):
+                lines.append(tagged("mbasis", (x, y)))
+                lines.append(tagged("mprops", (y, x)))
+    ctx.compare("exhaustive-mesh-short-long", lines)
     # mesh-in-mesh (the pruner's test) on all pairs of short meshes and sampled length 2/3
     lines = ["meshin %s %s" % (x, y) for x in M1 for y in M1]
     lines += ["meshin M_/0.0 M0,1/0.0,0.1,0.2,1.0,1.1,1.2,2.0,2.1,2.2", "meshin M_/_ M0,1/1.1", "meshin M_/0.0 M_/0.0"]
@@ -688,6 +864,71 @@ def run(ctx):
         lines.append(tagged("mbasis", t))
         lines.append(tagged("mprops", t))
     ctx.compare("random-planted", lines)
+    # chains of smallest containing patterns: m, super_mesh(m), super_mesh(super_mesh(m)), ... up to length 5
+    lines = []
+    for _ in range(250 if quick else 3000):
+        p = rand_perm(rng, rng.randrange(0, 4))
+        n = len(p)
+        cells = {(x, y) for x in range(n + 1) for y in range(n + 1) if rng.random() < rng.choice((0.1, 0.2, 0.4))}
+        chain = [(p, cells)]
+        while len(chain[-1][0]) < 5 and rng.random() < 0.7:
+            sm = super_mesh(rng, chain[-1][0], chain[-1][1], rng.choice((0.0, 0.0, 0.05)))
+            if sm is None:
+                break
+            chain.append(sm)
+        t = [c08.mtok(q, c) for q, c in chain]
+        if rng.random() < 0.3:
+            t.append(ptok(rand_perm(rng, rng.randrange(2, 4))))
+        rng.shuffle(t)
+        lines.append(tagged("mbasis", t))
+        if max(len(q) for q, _ in chain) <= 4:
+            lines.append(tagged("mprops", t))
+        if len(chain) >= 2:
+            lines.append("meshin %s %s" % (c08.mtok(*chain[0]), c08.mtok(*chain[-1])))
+            lines.append("meshin %s %s" % (c08.mtok(*chain[-2]), c08.mtok(*chain[-1])))
+    ctx.compare("mesh-chains", lines)
+    # sizes the other streams never reach: bases around long permutations, at several scales.  An operation is used
+    # at a scale only where implementation, oracle and model all need well under 0.2 s per line (measured: the model
+    # needs 0.3 s for a pattern of length 5 in one of length 40 and 2-40 s in one of length 70): short patterns are
+    # searched for in long ones up to length 40 (`props`, which builds five bases, up to length 12); from 64 on the
+    # lists hold long elements only.  Top scale 401 (three lines, 0.3-1.3 s each on implementation and model); at
+    # 700 the model needs 6 s a line and at 1000 the library's recursive search sits at the interpreter's recursion
+    # limit (RecursionError under the harness' own stack frames, fine in a bare interpreter).
+    lines = []
+    scales = [(9, 12, 45, True), (21, 40, 24, True), (64, 70, 8, False), (199, 202, 3, False), (400, 403, 3, False)]
+    for lo, hi, cnt, short_ok in scales:
+        for _ in range(cnt if quick else cnt * 8):
+            n = rng.randrange(lo, hi + 1)
+            t = [ptok(p) for p in long_family(rng, n, short_ok)]
+            lines.append("basis " + ftoks(t))
+            if n <= 12 or (n <= 70 and all(len(pseq(x[1:])) >= 9 for x in t)):
+                lines.append("props " + ftoks(t))
+            if rng.random() < 0.4:
+                lines.append("avbasis " + ftoks(t))
+    for n in (11, 12, 33, 65):     # fixed members: monotone and near-monotone long patterns together
+        ide, rev = tuple(range(n)), tuple(range(n - 1, -1, -1))
+        near = (1, 0) + tuple(range(2, n))
+        lines.append("basis " + ftoks(ptok(p) for p in (rev, near, ide, ide)))
+        lines.append("props " + ftoks(ptok(p) for p in (near, ide, rev)))
+        lines.append("basis " + ftoks(ptok(p) for p in (ide, tuple(range(n - 1)), rev, (2, 1, 0))))
+    # mesh patterns of length 6-12 and 21-24 with their smallest containing patterns one and two points longer
+    for lo, hi, cnt in ((6, 12, 24), (21, 24, 6)):
+        for _ in range(cnt if quick else cnt * 8):
+            n = rng.randrange(lo, hi + 1)
+            p = rand_perm(rng, n)
+            cells = {(x, y) for x in range(n + 1) for y in range(n + 1) if rng.random() < rng.choice((0.02, 0.1))}
+            chain = [(p, cells)]
+            for _ in range(rng.randrange(1, 3)):
+                sm = super_mesh(rng, chain[-1][0], chain[-1][1], rng.choice((0.0, 0.0, 0.01)))
+                if sm is not None:
+                    chain.append(sm)
+            t = [c08.mtok(q, c) for q, c in chain] + [c08.mtok(p, cells ^ {(0, n)})]
+            rng.shuffle(t)
+            lines.append(tagged("mbasis", t))
+            lines.append(tagged("mprops", t))
+            lines.append("meshin %s %s" % (c08.mtok(*chain[0]), c08.mtok(*chain[-1])))
+            lines.append("meshin %s %s" % (c08.mtok(*chain[-1]), c08.mtok(*chain[0])))
+    ctx.compare("large", lines)
     ctx.compare("malformed", ["basis M0/_", "props P0+M0/_", "mbasis M0/5.5", "mbasis V0/3", "avbasis M0/2.2",
                               "fromstr =abc", "fromstr =9", "fromstr =11", "fromstr =3,1",
                               "avbasis M_/_", "avbasis M_/0.0+P0,1 #e"])
